@@ -43,9 +43,14 @@ AllowedC14(e) ==
          /\ e.map_len = 1                                 \* a map keyed by pairs holds the combo once
          /\ e.text = PairText(e.a, e.b)
          /\ e.parsed = p /\ e.parsed_rev = p             \* text parses back; both card orders of a text parse equal
+    [] e.op = "twin" ->     \* parsing depends on the text alone: a text, its suit-swapped twin, the text again
+         /\ e.first = Pair(e.a, e.b) /\ e.then_twin = Pair(e.ta, e.tb) /\ e.again = Pair(e.a, e.b)
+    [] e.op = "route" ->    \* a pair value obtained through a rank pair, a token or a range is the canonical value of its cards
+         /\ e.first < e.second                               \* the card that orders first comes first
+         /\ e.eq_new = 1 /\ e.hash_eq = 1 /\ e.fx_eq = 1     \* equal to, and hashing like, CardPair::new of the same cards
     [] OTHER -> FALSE
 
-Allowed(e) == IF e.op = "pair" THEN AllowedC14(e) ELSE AllowedC13(e)
+Allowed(e) == IF e.op \in {"pair", "twin", "route"} THEN AllowedC14(e) ELSE AllowedC13(e)
 
 K == 64
 Init == l = <<"root">>
